@@ -1010,7 +1010,8 @@ def run_case(cfg):
     k = cfg["kind"]
     if k == "history":
         from mc.props import _hist_common as H
-        return H.run_history("C07", HIST_PRELUDE, ["%s/%s" % c for c in HIST_LABELS], cfg["seq"], HIST_TOL)
+        return H.run_history("C07", HIST_PRELUDE, ["%s/%s" % c for c in HIST_LABELS], cfg["seq"], HIST_TOL,
+                             sym=bool(cfg.get("sym")))
     if k == "tableau":
         return run_tableau(cfg)
     if k == "scheme":
